@@ -34,7 +34,7 @@ func (g *genCtx) argByName(name string) (string, bool) {
 
 // kind describes one parameter kind.
 type kind struct {
-	wa      string // Wa type used to render the literal
+	wa      string                // Wa type used to render the literal
 	lit     func(v string) string // optional: custom rendering of the canonical value as a Wa expression
 	gen     func(g *genCtx) string
 	classes func(v string, all A, f *fn) []string // boundary classes hit by the value
